@@ -51,6 +51,7 @@ import (
 	"github.com/spf13/viper"
 
 	"github.com/functionx/fx-core/v8/app"
+	migratetypes "github.com/functionx/fx-core/v8/x/migrate/types"
 
 	"fxverif/lib"
 )
@@ -177,6 +178,7 @@ type Snap struct {
 	Reds   []redRec
 	Ubds   []ubdRec
 	Paid   map[int]*big.Int // rewards paid out so far by account (maintained by the harness from balance deltas)
+	Mig    []int            // accounts with a migrate record
 	Height int64
 }
 
@@ -193,9 +195,11 @@ type World struct {
 	dq     distrkeeper.Querier
 	selfOK bool // a sender == recipient transfer has been accepted in this history
 
-	lastBlock bool             // nothing has been applied since the last block was committed
-	valKeys   []lib.Key        // operator keys, in the order of w.vals
-	paid      map[int]*big.Int // rewards paid out so far by account (from liquid balance deltas)
+	legacy, fresh int              // ids of the cosmos-key account (can be migrated) and of the unused eth account it migrates to
+	migrated      bool             // the migration happened
+	lastBlock     bool             // nothing has been applied since the last block was committed
+	valKeys       []lib.Key        // operator keys, in the order of w.vals
+	paid          map[int]*big.Int // rewards paid out so far by account (from liquid balance deltas)
 }
 
 const opBase = 100 // ids of the validator operators: 100+i
@@ -228,11 +232,26 @@ func newWorld(seed int64, nVals, nAcc int) *World {
 	for i := 0; i < nAcc; i++ {
 		w.accs = append(w.accs, lib.EthKey(seed, "c11", i))
 	}
+	// one account with a cosmos secp256k1 key (it acts through the SDK msg servers only and can be migrated
+	// with MsgMigrateAccount) and one unused eth account as the migration target
+	legacyKey := lib.CosmosKey(seed, "c11-legacy", 0)
+	freshKey := lib.EthKey(seed, "c11-fresh", 0)
+	w.accs = append(w.accs, legacyKey, freshKey)
 	sort.Slice(w.accs, func(a, b int) bool { return bytes.Compare(w.accs[a].Acc(), w.accs[b].Acc()) < 0 })
 	for i, k := range w.accs {
 		w.accID[k.Acc().String()] = i
+		if bytes.Equal(k.Acc(), legacyKey.Acc()) {
+			w.legacy = i
+		}
+		if bytes.Equal(k.Acc(), freshKey.Acc()) {
+			w.fresh = i
+			continue // no coins, no account record: it is created by the migration
+		}
 		c.Mint(k.Acc(), lib.FX(50_000_000))
 	}
+	la := c.App.AccountKeeper.GetAccount(c.Ctx, legacyKey.Acc())
+	lib.Must(la.SetPubKey(legacyKey.Priv.PubKey()))
+	c.App.AccountKeeper.SetAccount(c.Ctx, la)
 	w.valKeys = append(w.valKeys, c.ValKeys...)
 	sort.Slice(w.valKeys, func(a, b int) bool { return bytes.Compare(w.valKeys[a].Val(), w.valKeys[b].Val()) < 0 })
 	for i, k := range w.valKeys {
@@ -465,6 +484,15 @@ func (w *World) snap(ctx sdk.Context) Snap {
 		}
 		return false
 	}))
+	c.App.MigrateKeeper.IterateMigrateRecords(ctx, func(rec migratetypes.MigrateRecord) bool {
+		f, ok1 := w.accID[sdk.MustAccAddressFromBech32(rec.From).String()]
+		t, ok2 := w.accID[sdk.AccAddress(common.HexToAddress(rec.To).Bytes()).String()]
+		if !ok1 || !ok2 {
+			panic("unknown account in a migrate record")
+		}
+		s.Mig = append(s.Mig, f, t)
+		return false
+	})
 	lib.Must(c.App.StakingKeeper.IterateUnbondingDelegations(ctx, func(_ int64, u stakingtypes.UnbondingDelegation) bool {
 		d := w.accID[sdk.MustAccAddressFromBech32(u.DelegatorAddress).String()]
 		for _, e := range u.Entries {
@@ -473,6 +501,16 @@ func (w *World) snap(ctx sdk.Context) Snap {
 		return false
 	}))
 	return s
+}
+
+func (s Snap) nRedsOf(d int) int {
+	n := 0
+	for _, r := range s.Reds {
+		if r.Del == d {
+			n++
+		}
+	}
+	return n
 }
 
 func (s Snap) nReds(d, src, dst int) int {
@@ -563,7 +601,12 @@ func (s Snap) digest() *big.Int {
 		hp.Add(hp, hmix([]*big.Int{bi(id), n}))
 		hp.And(hp, hM)
 	}
-	return hmix([]*big.Int{hv, ha, hr, hu, hp})
+	hm := big.NewInt(0)
+	for _, id := range s.Mig {
+		hm.Add(hm, hmix([]*big.Int{bi(id)}))
+		hm.And(hm, hM)
+	}
+	return hmix([]*big.Int{hv, ha, hr, hu, hp, hm})
 }
 
 func (s Snap) allowance(v, owner, spender int) *big.Int {
@@ -643,13 +686,16 @@ func (w *World) validOp(o Op) bool {
 	if o.K == "block" || o.K == "mature" || o.K == "export" {
 		return true
 	}
+	if o.K == "migrate" {
+		return okAcc(o.A) && okAcc(o.B)
+	}
 	if o.V < 0 || o.V >= nv {
 		return false
 	}
 	switch o.K {
 	case "slash", "jail", "unjail":
 		return true
-	case "approveRev":
+	case "approveRev", "migrate":
 		return okAcc(o.A) && okAcc(o.B)
 	case "redelegate":
 		return o.W >= 0 && o.W < nv && okAcc(o.A)
@@ -673,6 +719,17 @@ func (w *World) apply(o *Op) error {
 		o.Ord = w.delegatorOrder()
 		err := w.exportImport(o.Zero)
 		w.lastBlock = err == nil
+		return err
+	case "migrate":
+		// the real MsgMigrateAccount handler: bank, staking/distribution and gov records move to the new address
+		err := c.Try(func(ctx sdk.Context) error {
+			_, e := c.App.MigrateKeeper.MigrateAccount(ctx, &migratetypes.MsgMigrateAccount{
+				From: w.key(o.A).Acc().String(), To: w.key(o.B).Hex().String(), Signature: "00"})
+			return e
+		})
+		if err == nil && o.A == w.legacy && o.B == w.fresh {
+			w.migrated = true
+		}
 		return err
 	case "approveRev":
 		// approveShares(val, spender, x) executed by the reverting contract (owner = that contract)
@@ -825,6 +882,8 @@ func (o Op) coq() string {
 		return fmt.Sprintf("ExportImport %s %s", lib.Bool(o.Zero), lib.List(l))
 	case "approveRev":
 		return fmt.Sprintf("Reverted (Approve %s %d %s %s)", z(o.V), revID, z(o.B), o.X)
+	case "migrate":
+		return fmt.Sprintf("Migrate %s %s", z(o.A), z(o.B))
 	case "jail":
 		return "Jail " + z(o.V)
 	case "unjail":
@@ -837,6 +896,8 @@ func (o Op) touched() []int {
 	switch o.K {
 	case "block", "mature", "approveRev":
 		return nil
+	case "migrate":
+		return []int{0, 1, 2}
 	case "export":
 		return []int{0, 1, 2}
 	case "slash":
@@ -1037,6 +1098,21 @@ func (w *World) monitor(o Op, before, after Snap, balBefore map[int]*big.Int, pe
 	if o.K == "approve" && err == nil {
 		if after.allowance(o.V, o.A, o.B).Cmp(bigOf(o.X)) != 0 {
 			add("approve", "approve(%s) left allowance %s", o.X, after.allowance(o.V, o.A, o.B))
+		}
+	}
+	if o.K == "migrate" && err == nil {
+		// the new address holds exactly what the old one held, on every validator; nobody else changes
+		for i := range after.Vals {
+			bv, av := before.Vals[i], after.Vals[i]
+			if av.del(o.B).Cmp(bv.del(o.A)) != 0 || av.del(o.A).Sign() != 0 {
+				add("migrate-shares", "validator %d: %d held %s before the migration, %d holds %s after it (old address: %s)", i, o.A, bv.del(o.A), o.B, av.del(o.B), av.del(o.A))
+			}
+			if bv.Tokens.Cmp(av.Tokens) != 0 || bv.Shares.Cmp(av.Shares) != 0 {
+				add("migrate-validator", "the migration changed validator %d", i)
+			}
+		}
+		if before.nRedsOf(o.A) != after.nRedsOf(o.B) || after.nRedsOf(o.A) != 0 {
+			add("migrate-redelegations", "%d redelegation entries of %d before the migration, %d of %d after it", before.nRedsOf(o.A), o.A, after.nRedsOf(o.B), o.B)
 		}
 	}
 	if o.K == "export" && err != nil {
@@ -1248,6 +1324,9 @@ func (w *World) gen(r *lib.Rand, s Snap, self bool) Op {
 		fee.Add(fee, big.NewInt(int64(r.Intn(1000))))
 		return Op{K: "block", X: fee.String()}
 	case p < 94:
+		if !w.migrated && r.Chance(35) {
+			return Op{K: "migrateblock", V: v}
+		}
 		if r.Chance(60) {
 			return Op{K: "lifecycle", V: v, Zero: r.Chance(70)}
 		}
@@ -1282,6 +1361,52 @@ func (w *World) gen(r *lib.Rand, s Snap, self bool) Op {
 	}
 }
 
+// who may act: the migration target only after the migration, the migrated account never again; the
+// cosmos-key account cannot send EVM transactions
+func (w *World) alive(id int) bool {
+	return !(id == w.fresh && !w.migrated) && !(id == w.legacy && w.migrated)
+}
+
+func (w *World) anyAlive(r *lib.Rand, evm bool) int {
+	for {
+		id := r.Intn(len(w.accs))
+		if w.alive(id) && (!evm || id != w.legacy) {
+			return id
+		}
+	}
+}
+
+func (w *World) fixActors(r *lib.Rand, o *Op, self bool) {
+	fix := func(id *int, evm bool) {
+		if !w.alive(*id) || evm && *id == w.legacy {
+			*id = w.anyAlive(r, evm)
+		}
+	}
+	switch o.K {
+	case "delegate", "undelegate", "redelegate", "withdraw":
+		fix(&o.A, false)
+		if o.A == w.legacy {
+			o.Via = "msg"
+		}
+	case "approve", "approveRev":
+		fix(&o.A, true)
+		fix(&o.B, false)
+	case "transfer":
+		fix(&o.A, true)
+		fix(&o.B, false)
+		for !self && o.B == o.A {
+			o.B = w.anyAlive(r, false)
+		}
+	case "transferFrom":
+		fix(&o.A, true)
+		fix(&o.B, false)
+		fix(&o.C, false)
+		for !self && o.C == o.B {
+			o.C = w.anyAlive(r, false)
+		}
+	}
+}
+
 // exit phase: everyone withdraws and undelegates everything (whole tokens); all of it has to succeed
 func (w *World) exitOps(s Snap) []Op {
 	var ops []Op
@@ -1290,8 +1415,12 @@ func (w *World) exitOps(s Snap) []Op {
 			if d.ID >= opBase {
 				continue
 			}
-			ops = append(ops, Op{K: "withdraw", V: v, A: d.ID, Via: "evm", Must: true})
-			ops = append(ops, Op{K: "undelegate", V: v, A: d.ID, X: "all", Via: "evm", Must: true})
+			via := "evm"
+			if d.ID == w.legacy {
+				via = "msg"
+			}
+			ops = append(ops, Op{K: "withdraw", V: v, A: d.ID, Via: via, Must: true})
+			ops = append(ops, Op{K: "undelegate", V: v, A: d.ID, X: "all", Via: via, Must: true})
 		}
 	}
 	return ops
@@ -1394,6 +1523,26 @@ func runHistory(h History, r *lib.Rand, n int) *result {
 			o, queue = queue[0], queue[1:]
 		} else if step < n {
 			o = w.gen(r, cur, self)
+			w.fixActors(r, &o, self)
+			if o.K == "migrateblock" {
+				// the cosmos-key account delegates to v and redelegates part of it to another validator; while
+				// that redelegation is open the account is migrated; the new address tries to move the
+				// redelegated shares away (must be refused: incoming redelegation); then v is slashed for an
+				// infraction before the redelegation, which has to reach the redelegated stake at the destination
+				dst := (o.V + 1) % len(w.vals)
+				amt := new(big.Int).Mul(big.NewInt(int64(200+r.Intn(800))), one18)
+				half := new(big.Int).Quo(amt, big.NewInt(2))
+				to := w.anyAlive(r, false)
+				pw := new(big.Int).Quo(cur.Vals[o.V].Tokens, new(big.Int).Mul(big.NewInt(100), one18)).Int64()
+				queue = append(queue,
+					Op{K: "block", X: "1000000000000000000"},
+					Op{K: "redelegate", V: o.V, W: dst, A: w.legacy, X: half.String(), Via: "msg"},
+					Op{K: "migrate", A: w.legacy, B: w.fresh},
+					Op{K: "transfer", V: dst, A: w.fresh, B: to, X: new(big.Int).Quo(half, big.NewInt(3)).String()},
+					Op{K: "block", X: "1000000000000000000"},
+					Op{K: "slash", V: o.V, Power: pw, Frac: fracs[r.Intn(len(fracs))], Back: 2})
+				o = Op{K: "delegate", V: o.V, A: w.legacy, X: amt.String(), Via: "msg"}
+			}
 			if o.K == "lifecycle" {
 				// export the committed state (after a block) and continue on a fresh application; then a
 				// slash on the new chain and reward blocks, so that every starting info written by the
@@ -1456,7 +1605,7 @@ func runHistory(h History, r *lib.Rand, n int) *result {
 			balAll[id] = w.balance(w.c.Ctx, id)
 		}
 		err := w.apply(&o)
-		if err == nil && o.K != "block" && o.K != "mature" {
+		if err == nil && o.K != "block" && o.K != "mature" && o.K != "migrate" {
 			for _, id := range allIDs {
 				d := new(big.Int).Sub(w.balance(w.c.Ctx, id), balAll[id])
 				if o.K == "delegate" && id == o.A {
@@ -1485,6 +1634,15 @@ func runHistory(h History, r *lib.Rand, n int) *result {
 			}
 		}
 		res.steps = append(res.steps, stepRec{o, ok, after})
+		if !ok && (o.K == "transfer" || o.K == "transferFrom") {
+			from := o.A
+			if o.K == "transferFrom" {
+				from = o.B
+			}
+			if o.V < len(cur.Vals) && cur.nReds(from, -1, o.V) > 0 && cur.Vals[o.V].del(from).Sign() > 0 {
+				res.stats["transfer:refused-with-incoming-redelegation"]++
+			}
+		}
 		if ok {
 			switch o.K {
 			case "slash":
@@ -1513,6 +1671,12 @@ func runHistory(h History, r *lib.Rand, n int) *result {
 				}
 				if len(cur.Vals[o.V].Slashes) > 0 {
 					res.stats["transfer:on-slashed-validator"]++
+				}
+			case "migrate":
+				if cur.nRedsOf(o.A) > 0 {
+					res.stats["migrate:with-open-redelegation"]++
+				} else {
+					res.stats["migrate:plain"]++
 				}
 			case "export":
 				if o.Zero {
@@ -1551,7 +1715,7 @@ func main() {
 	seed := lib.Seed()
 	mode := os.Getenv("VERIF_MODE")
 	rep := lib.NewReport("C11")
-	rep.Rule = "histories of delegate/undelegate/redelegate/withdraw/approve/transfer/transferFrom among 3-5 EOAs on 2-3 validators through the real staking precompile (30% of delegate/undelegate/redelegate/withdraw through the SDK msg servers), interleaved with fee-carrying blocks (the per-validator reward allocation is observed and fed to the model), slashing for the current and for past infraction heights, jailing/unjailing (validators leave and re-enter the bonded set), unbonding-time jumps, application export (zero-height or as is) + import into a fresh app followed by a slash and reward blocks, and approveShares made by a contract whose frame reverts, closed by 'everyone withdraws and undelegates'; amounts biased to full/partial/over-limit values and exact allowances; stream noself never has sender == recipient, stream self has it in ~25% of transfers; one evaluation = one history; non-trivial = at least one accepted transfer or transferFrom and at least one reward block and the exit phase reached; distinct by full op list"
+	rep.Rule = "histories of delegate/undelegate/redelegate/withdraw/approve/transfer/transferFrom among 3-5 EOAs on 2-3 validators through the real staking precompile (30% of delegate/undelegate/redelegate/withdraw through the SDK msg servers), interleaved with fee-carrying blocks (the per-validator reward allocation is observed and fed to the model), slashing for the current and for past infraction heights, jailing/unjailing (validators leave and re-enter the bonded set), unbonding-time jumps, application export (zero-height or as is) + import into a fresh app followed by a slash and reward blocks, migration of a cosmos-key account (MsgMigrateAccount handler) while its redelegation is open followed by a transfer attempt of the new address and a past-height slash of the source validator, and approveShares made by a contract whose frame reverts, closed by 'everyone withdraws and undelegates'; amounts biased to full/partial/over-limit values and exact allowances; stream noself never has sender == recipient, stream self has it in ~25% of transfers; one evaluation = one history; non-trivial = at least one accepted transfer or transferFrom and at least one reward block and the exit phase reached; distinct by full op list"
 
 	if mode == "replay" {
 		b, err := os.ReadFile(os.Getenv("VERIF_REPLAY"))
